@@ -226,8 +226,10 @@ class C13(Check):
                   "of admissible histories (step_fit), and oversize_entry_fails shows it is needed. The data path is not modelled: its effect on counters/buffers is fed to the model as "
                   "observed snapshots (Event.traffic); the theorems hold for every snapshot. Abstractions: matches are {all-wildcard, in_port=k}; actions are (type, output port, length); "
                   "malformed bodies beyond the connection-level rejection are C10's. The model follows the REPAIRED code: D9, D10, D27, C13-1, C13-2 committed; C13-3 = "
-                  "fixes/C13-3_stats_reply_multipart.diff (a statistics body longer than a message is sent in parts). C13-4 = fixes/C13-4_flow_mod_bad_action.diff (an ADD/MODIFY flow_mod carrying "
-                  "an action type without handler is refused with BAD_ACTION/BAD_TYPE, nothing installed; while finding C13-4 is open such histories are oracle-only).")
+                  "fixes/C13-3_stats_reply_multipart.diff (a statistics body longer than a message is sent in parts). C13-4 committed; C13-5 = fixes/C13-5_flow_mod_too_many_actions.diff (an ADD/MODIFY "
+                  "flow_mod whose flow could not be reported in a statistics reply is refused with BAD_ACTION/TOO_MANY: FlowsFit becomes an invariant of every history, step_fit); C13-6 = "
+                  "fixes/C13-6_send_error_oversize_request.diff (an error quotes at most what fits). For arbitrary states rxStats stays partial: Err.struct k = k parts were sent, then pack raised "
+                  "(oversize_entry_fails).")
     trusted_base = ["model Model/SwitchReq.lean hand-written from pox/datapaths/switch.py (+ flow_table.py for the table summary); tied by the dispatch/class `decide` obligations and this correspondence run",
                     "harness/translate/dispatch_tables.py (reads the four handler tables and the class registries off a live SoftwareSwitch in a child process; ast reading of the constructor only as fallback)",
                     "harness/swnet.py byte-level node; the struct-based reply decoder in harness/c13.py"]
@@ -294,6 +296,15 @@ class C13(Check):
         if ty == 0xffff: return of.ofp_action_vendor_generic(vendor=v % (1 << 32), body=b"\0\0\0\0")
         return of.ofp_action_generic(type=ty, data=b"\0\0\0\0")
 
+    def acts_len(self, acts):
+        """encoded length of an action list (per type, measured once on the library's own encoding)"""
+        c = self.__dict__.setdefault("_alen", {})
+        n = 0
+        for a in acts:
+            if a[0] not in c: c[a[0]] = len(self._action(a).pack())
+            n += c[a[0]]
+        return n
+
     def _match(self, mk):
         return self.of.ofp_match() if mk is None else self.of.ofp_match(in_port=mk)
 
@@ -313,7 +324,7 @@ class C13(Check):
                                    mask=m["mask"], advertise=0).pack()
         if k == "packet_out":
             return of.ofp_packet_out(xid=x, buffer_id=m["bid"], in_port=m.get("in_port", OFPP_NONE), actions=[self._action(a) for a in m["acts"]],
-                                     data=(FRAME if m["data"] else b"")).pack()
+                                     data=((FRAME + bytes(max(0, m.get("datalen", 0) - len(FRAME)))) if m["data"] else b"")).pack()
         if k == "flow_mod":
             return of.ofp_flow_mod(xid=x, command=m["cmd"], match=self._match(m["mkey"]), priority=m["prio"], cookie=m["cookie"], flags=m["flags"],
                                    idle_timeout=m["idle"], hard_timeout=m["hard"], out_port=m["out_port"], buffer_id=m["bid"],
@@ -661,6 +672,7 @@ class C13(Check):
             cut = sorted(rng.randrange(96, room - 96, 8) for _ in range(k - 1))
             sizes += [b - a for a, b in zip([0] + cut, cut + [room]) if b - a >= 88]
         sizes = [min(sz, self.LIMIT8) for sz in sizes][:7]
+        if rng.random() < 0.3: sizes.insert(rng.randint(0, len(sizes)), self.LIMIT8 + rng.choice([8, 16, 24]))      # one entry too long to be reported
         flall = {"k": "stats_request", "xid": 9001, "st": "flow", "mkey": None, "table_id": 0xff, "out_port": OFPP_NONE}
         msgs = self.fat_flows(fm, sizes) + [flall, {"k": "barrier_request", "xid": 9002},
                                            {"k": "stats_request", "xid": 9003, "st": "aggregate", "mkey": None, "table_id": 0, "out_port": OFPP_NONE}]
@@ -723,6 +735,15 @@ class C13(Check):
         # (two full parts of small entries, with 0 / 1 / 2 entries left over) and by entry size (few entries with long action lists)
         for nflows in (1365, 1366):
             one(S[0], [fm(10 + i, 0, 1 + i % 4, 3000 - i, acts=[(0, 2)], ck=i) for i in range(nflows)] + [flall, bar(9002), ag, tbl])
+        # flows that are one, two, three actions too long to be reported at all, alone and behind ordinary ones; and requests too long
+        # to be quoted in full by the error they provoke
+        for plan in ([65520], [65528], [65536], [65544], [168, 168, 65544], [40000, 65528, 30000]):
+            one(S[0], self.fat_flows(fm, plan) + [flall, bar(9002), ag, tbl])
+            one(S[0], self.fat_flows(fm, plan) + [flall, bar(9002)], "batch")
+        huge = [(0, 2)] * 8182
+        one(S[0], [fm(1, 9, 1, 5, acts=huge), bar(2), fm(3, 0, 1, 5, 4, acts=huge), bar(4), fm(5, 0, 1, 5, acts=[(0xffff, 7)] + huge[:8180]), bar(6),
+                   {"k": "packet_out", "xid": 7, "bid": None, "data": True, "datalen": 65400, "in_port": OFPP_NONE, "acts": [[0xffff, 1]]}, bar(8),
+                   {"k": "packet_out", "xid": 9, "bid": 3, "data": False, "in_port": OFPP_NONE, "acts": [list(a) for a in huge[:8189]]}, bar(10)])
         for sizes in self.FAT_PLANS:
             one(S[0], self.fat_flows(fm, sizes) + [flall, bar(9002), {"k": "stats_request", "xid": 9003, "st": "flow", "mkey": None, "table_id": 0, "out_port": 2}, bar(9004), ag], "batch")
             if sizes in self.FAT_PLANS[:4]: one(S[0], self.fat_flows(fm, sizes) + [flall, bar(9002), tr(1), flall, bar(9004)])
@@ -941,7 +962,7 @@ class C13(Check):
                 else: evs.append({"k": "rejected", "xid": m["xid"], "code": 1 if m["why"] == "type" else 6})
             else:
                 e = {kk: v for kk, v in m.items() if kk in self._MODEL_KEYS}
-                if "acts" in e: e["acts"] = [[a[0], a[1], len(self._action(a).pack())] for a in e["acts"]]
+                if "acts" in e: e["acts"] = [[a[0], a[1], self.acts_len([a])] for a in e["acts"]]
                 evs.append(e)
                 starting = False
             evs.append(self._sync(snap, False, flows=moved))       # counters as the data path left them (packet_out / buffered packets move them)
@@ -967,7 +988,7 @@ class C13(Check):
     def impl_view(self, case, obs):
         case = self.effective(case)
         if obs["mode"] == "step":
-            return {"groups": [({"out": []} if m["k"] == "traffic" else {"fail": g["exc"][0]} if g["exc"] else {"out": [self._strip(r) for r in g["out"]]})
+            return {"groups": [({"out": []} if m["k"] == "traffic" else {"fail": g["exc"][0], "sent": sum(1 for r in g["out"] if r["t"] not in ASYNC)} if g["exc"] else {"out": [self._strip(r) for r in g["out"]]})
                                for m, g in zip(case["msgs"], obs["groups"])], "final": obs["final"]}
         return {"stream": [self._strip(r) for r in obs["stream"]], "final": obs["final"]}
 
@@ -1010,6 +1031,9 @@ class C13(Check):
                 R = [merged]
         elif k == "stats_request" and len(R) == 1 and R[0]["t"] == "stats_reply" and R[0].get("flags", 0) & 1:
             return "stats_request:%s:more-flag-on-last-part | " % m["st"]
+        if exc and len(raw) > 65523:
+            # the request is longer than an error message can quote in full
+            return "%s:oversize-request:internal-failure:%s | %d bytes, xid=%d" % (k, exc[0], len(raw), x)
         if exc:
             what = {"stats_request": lambda: "stats_request:%s" % m["st"], "flow_mod": lambda: "flow_mod:cmd-%s" % ("valid" if m["cmd"] <= 4 else "unknown")}
             return "%s:internal-failure:%s | xid=%d" % (what.get(k, lambda: k)(), exc[0], x)
@@ -1161,6 +1185,11 @@ class C13(Check):
                     if codes == [(2, 0)]: return None
                     return "flow_mod:unsupported-action:%s | action types %s, expected BAD_ACTION/BAD_TYPE, got %s" % (
                         "installed-silently" if (2, 0) not in codes else "wrong-error", [a[0] for a in m["acts"] if not (0 <= a[0] <= 11)], codes)
+                if m["cmd"] <= 2 and 88 + self.acts_len(m["acts"]) > 65523:
+                    # more actions than a flow-statistics entry can ever report: OFPET_BAD_ACTION / OFPBAC_TOO_MANY, nothing installed
+                    if codes == [(2, 7)]: return None
+                    return "flow_mod:too-many-actions:%s | %d bytes of actions, expected BAD_ACTION/TOO_MANY, got %s" % (
+                        "installed-silently" if not codes else "wrong-error", self.acts_len(m["acts"]), codes)
                 ok_codes, notify = ctx["table"].flow_mod(m)
                 name = lambda cs: "none" if not cs else "+".join("%d-%d" % c for c in sorted(cs))
                 if ok_codes is None:
